@@ -37,6 +37,7 @@
 #include "graph.h"
 #include "metrics.h"
 #include "util.h"
+#include "verif_hooks.h"
 #if defined(_MSC_VER) && (_MSC_VER < 1800)
 #define strtoll _strtoi64
 #endif
@@ -117,6 +118,7 @@ bool BuildLog::RecordCommand(Edge* edge, int start_time, int end_time,
       if (fflush(log_file_) != 0) {
           return false;
       }
+      VERIF_CRASH_POINT("buildlog-between-outputs");
     }
   }
   return true;
@@ -373,6 +375,7 @@ bool BuildLog::Recompact(const std::string& path, const BuildLogUser& user,
     entries_.erase(output);
 
   fclose(f);
+  VERIF_CRASH_POINT("buildlog-recompact-before-replace");
 
   return ReplaceContent(path, temp_path, err);
 }
@@ -421,6 +424,7 @@ bool BuildLog::Restat(const StringPiece path,
   }
 
   fclose(f);
+  VERIF_CRASH_POINT("buildlog-restat-before-replace");
 
   return ReplaceContent(path.AsString(), temp_path, err);
 }
